@@ -283,6 +283,9 @@ func c04Run(r *vt.Run, c c04Case) (points []sim.Point, devDesc string, found []c
 					role = "master"
 				}
 				class := "failed-call"
+				if c.Dev.Kind == sim.DevErr && c.Dev.Arg == 1 && pt.Kind == "zk" {
+					class = "failed-call-not-retried" // an error the ZooKeeper client does not retry
+				}
 				if c.Dev.Kind == sim.DevCrashBefore || c.Dev.Kind == sim.DevCrashAfter {
 					class = "manager-crash"
 				} else if c.Dev.Kind == sim.DevTargetDownBefore {
@@ -616,6 +619,11 @@ func checkC04(r *vt.Run) {
 								sim.Deviation{At: i, Kind: sim.DevLost}, sim.Deviation{At: i, Kind: sim.DevErr})
 						} else if upd >= 0 && i >= upd && !p.Fails {
 							devs = append(devs, sim.Deviation{At: i, Kind: sim.DevErr})
+							if p.Kind == "zk" {
+								// a failed READ of the coordination service that the client does not retry (the
+								// retried kind is invisible to the caller)
+								devs = append(devs, sim.Deviation{At: i, Kind: sim.DevErr, Arg: 1})
+							}
 						}
 						if upd >= 0 && i >= upd && p.Kind == "sql" {
 							marg := 1 // index+1 of h1 among the sorted server names
